@@ -199,7 +199,7 @@ func c05ReadMSP[S algebra.PrimeFieldElement[S]](m *msp.MSP[S]) *c05Msp[S] {
 	return out
 }
 
-func idsStr(ids []sharing.ID) string {
+func c05idsStr(ids []sharing.ID) string {
 	out := make([]string, len(ids))
 	for i, id := range ids {
 		out[i] = fmt.Sprintf("%d", id)
@@ -209,7 +209,7 @@ func idsStr(ids []sharing.ID) string {
 
 // ctx renders "<cols> <M row-major> <labels>" (rows = number of labels).
 func (m *c05Msp[S]) ctx() string {
-	return fmt.Sprintf("%d %s %s", m.cols, matHex(m.data), idsStr(m.labels))
+	return fmt.Sprintf("%d %s %s", m.cols, matHex(m.data), c05idsStr(m.labels))
 }
 
 func (m *c05Msp[S]) rowsOf(id sharing.ID) []int {
